@@ -61,6 +61,7 @@ def main(tier, seed):
                 p = rand_prog(rng, grammar=True)
                 if has_input_cmd(p): k += 1; continue
                 if rng.random() < 0.1: p = []
+                if rng.random() < 0.04: p = idiom_jump_from_zero(rng)       # command 0 as a jump source / return point
                 if rng.random() < 0.12:
                     # several live stacks with one-, two- and three-digit indices: the order of the `state` display
                     idxs = rng.sample([3, 4, 9, 10, 11, 19, 20, 30, 99, 100, 101], rng.randint(3, 5))
